@@ -235,3 +235,24 @@ def all_structs(F):
         classes, _ = fieldclass.classify_fields(F)
         _cache[k] = {s: analyse(F, s, classes) for s in F.indicators()}, classes
     return _cache[k]
+
+
+def canon_wrap(F, struct, t):
+    """rewrite the modulo idiom of a cursor step, `(c + 1) % period`, into the comparison idiom `if c + 1 < period { c + 1 } else { 0 }`.
+    Sound under the cursor invariant c < period = len >= 1 (then c + 1 <= period, and the remainder is 0 exactly when c + 1 == period)."""
+    from terms import mk_gamma
+    ts = all_structs(F)[0].get(struct)
+    if ts is None or not ts.cursors:
+        return t
+
+    def go(x):
+        if not isinstance(x, tuple):
+            return x
+        if x and x[0] == "%" and isinstance(x[1], tuple) and x[1][0] == "+" and x[1][2] == cu(1) and isinstance(x[1][1], tuple) and x[1][1][0] == "pre" \
+                and isinstance(x[2], tuple) and x[2][0] == "pre":
+            c = x[1][1][1].split(".", 1)[1] if x[1][1][1].startswith("self.") else None
+            pf = x[2][1].split(".", 1)[1] if x[2][1].startswith("self.") else None
+            if c in ts.cursors and pf in ts.len_fields:
+                return mk_gamma(("<", x[1], x[2]), x[1], cu(0))
+        return tuple(go(y) for y in x)
+    return go(t)
